@@ -61,7 +61,10 @@ static void qr_case(int m, int n, bool col_major, int zero_col) {
         std::vector<scalar> A(m*n), A0;
         for (int i=0;i<m;++i) for (int j=0;j<n;++j) A[idx(i,j)] = j==zero_col ? scalar(0) : var("a_"+std::to_string(i)+"_"+std::to_string(j), 1.0+0.5*((i*2+j*3)%5)-(i==j?3.5:0));
         A0=A;
-        amgcl::detail::QR<scalar> qr; qr.factorize(m,n,A.data(),order);
+        amgcl::detail::QR<scalar> qr;
+        // the object is REUSED (tentative_prolongation keeps one QR per thread over all aggregates): an earlier factorisation of another matrix must leave no trace
+        { std::vector<scalar> E(m*n); for (int i=0;i<m;++i) for (int j=0;j<n;++j) E[idx(i,j)]=var("early_"+std::to_string(i)+"_"+std::to_string(j), 0.75-0.5*((i+2*j)%3)+(i==j?2.0:0.0)); hx::cuts(true); qr.factorize(m,n,E.data(),order); hx::cuts(false); }
+        qr.factorize(m,n,A.data(),order);
         int k=std::min(m,n);
         // A = Q R (Q is m x n as stored, R is upper trapezoidal k x n: product over the first k columns)
         std::vector<scalar> qrp, a0; std::vector<hx::F> tri;
